@@ -479,6 +479,46 @@ impl World {
     }
 }
 
+impl World {
+    /// Benign variation of a node's known-peer table: entries for `others` with PRNG affinities.
+    /// An entry must never change what an *explicit* dial does (affinity only governs inbound
+    /// admission and background dialing), so on a node that only dials (`accepts_inbound` false)
+    /// every affinity including Never is drawn; on a node that must accept connections from the
+    /// others only High and Allowed are. Background dialing stays out of the picture as long as
+    /// the connectivity-check interval is long (`base_config`). Returns the affinities chosen.
+    pub fn vary_known_peers(&self, node: &Node, others: &[(PeerId, Option<SocketAddr>)], accepts_inbound: bool) -> Vec<(PeerId, &'static str)> {
+        use anemo::types::{PeerAffinity, PeerInfo};
+        use rand::Rng;
+        let mut r = self.rng(&format!("cfg:known-peers:{}", node.idx));
+        let mut out = Vec::new();
+        if !r.gen_bool(0.4) {
+            return out;
+        }
+        for (p, a) in others {
+            if *p == node.peer_id {
+                continue;
+            }
+            let k = r.gen_range(0..if accepts_inbound { 3 } else { 4 });
+            let (aff, name) = match k {
+                0 => continue,
+                1 => (PeerAffinity::Allowed, "allowed"),
+                2 => (PeerAffinity::High, "high"),
+                _ => (PeerAffinity::Never, "never"),
+            };
+            // (a High entry with an address would be dialed in the background at the very first
+            // connectivity check: High entries stay without address here)
+            let address = match a {
+                Some(a) if name != "high" && r.gen_bool(0.5) => vec![(*a).into()],
+                _ => vec![],
+            };
+            node.net.known_peers().insert(PeerInfo { peer_id: *p, affinity: aff, address });
+            out.push((*p, name));
+            self.probe(&format!("known-peer-entry-{name}"));
+        }
+        out
+    }
+}
+
 /// A user outbound layer that does not forward at once (a throttle): the inner service is only
 /// called after the delay.
 struct HoldBack {
@@ -639,6 +679,25 @@ pub struct SvcState {
 pub struct Plan {
     pub delay: Duration,
     pub response: Response<Bytes>,
+    /// the handler is CPU-bound (occupies its worker thread without yielding) for this long from
+    /// its first poll: the task that runs it is neither polled nor - when aborted - dropped before
+    /// that (`hold_current_task`)
+    pub hold: Duration,
+}
+
+/// Model of "the current task occupies a worker thread of a multi-threaded runtime for `d`
+/// without yielding" (tokio::runtime::sim_sched::hold_task in the vendored tokio): everybody
+/// else keeps running, this task is not polled again and cannot be dropped before the time is up.
+pub fn hold_current_task(d: Duration) {
+    if d.is_zero() {
+        return;
+    }
+    if let Some(id) = tokio::task::try_id() {
+        let until = tokio::time::Instant::now() + d;
+        tokio::runtime::sim_sched::hold_task(id, until);
+        // a timer at the release instant, so that the paused clock can advance to it
+        tokio::spawn(async move { tokio::time::sleep_until(until).await });
+    }
 }
 
 pub type PlanFn = Arc<dyn Fn(&Request<Bytes>) -> Plan + Send + Sync>;
@@ -670,9 +729,11 @@ impl Svc {
     pub fn echo(world: &World) -> Self {
         Self::new(
             world,
+            // (optional headers, used by scenarios that want slow or CPU-bound handlers)
             Arc::new(|req: &Request<Bytes>| Plan {
-                delay: Duration::ZERO,
+                delay: Duration::from_millis(req.headers().get("x-delay-ms").and_then(|v| v.parse().ok()).unwrap_or(0)),
                 response: Response::new(req.body().clone()),
+                hold: Duration::from_millis(req.headers().get("x-hold-ms").and_then(|v| v.parse().ok()).unwrap_or(0)),
             }),
         )
     }
@@ -788,6 +849,7 @@ impl tower::Service<Request<Bytes>> for Svc {
             done: false,
         };
         Box::pin(async move {
+            hold_current_task(plan.hold);
             if !plan.delay.is_zero() {
                 tokio::time::sleep(plan.delay).await;
             }
